@@ -23,7 +23,7 @@ use vcommon::{fingerprint, CheckDef, ClassPlan, Ctx, Outcome, PassInfo, Tape, Ti
 pub static DEF: CheckDef = CheckDef {
     id: "C15",
     level: "fault_enumeration",
-    rule: "Cases: 13 fixed scenarios in which one client (the victim) has operations of every handle type in flight or deliberately left pending (server loops, calls held by the callee, event/item/bus-event/discoverer streams, send_ready without credit, establish, lifetime end, wait_for_object, request bursts), run with a peer client against a real broker under generated schedules. Faults: for each (scenario, schedule) a fault-free run measures T completed transport operations (receive/send/flush) of the victim after the handshake; EVERY k in 0..T is executed with an injected error and with a disconnect (class fault-sweep, exhaustive over k); classes fault-random and clean add generated schedules and the four clean causes (Handle::shutdown, last handle dropped, BrokerHandle::shutdown, BrokerHandle::shutdown_connection) and the combination Handle::shutdown + BrokerHandle::shutdown at generated program points (simulator step index). Classes fault-generated / clean-generated take a GENERATED multi-client program (C06's generator, operations that stop clients or the broker taken out; client 0 is the victim) instead of a fixed scenario, measure its fault-free run under its own schedule and inject the fault / apply the clean cause at a generated point of that run. Non-trivial: >=3 application operations of the victim pending when the client stops. Distinct = scenario + cause + point + schedule.",
+    rule: "Cases: 13 fixed scenarios in which one client (the victim) has operations of every handle type in flight or deliberately left pending (server loops, calls held by the callee, event/item/bus-event/discoverer streams, send_ready without credit, establish, lifetime end, wait_for_object, request bursts), run with a peer client against a real broker under generated schedules. Faults: for each (scenario, schedule) a fault-free run measures T completed transport operations (receive/send/flush) of the victim after the handshake; EVERY k in 0..T is executed with an injected error, with a disconnect and with an error that leaves the connection half-open (later writes fail, later reads stay silent) (class fault-sweep, exhaustive over k); classes fault-random and clean add generated schedules and the four clean causes (Handle::shutdown, last handle dropped, BrokerHandle::shutdown, BrokerHandle::shutdown_connection) and the combination Handle::shutdown + BrokerHandle::shutdown at generated program points (simulator step index). Classes fault-generated / clean-generated take a GENERATED multi-client program (C06's generator, operations that stop clients or the broker taken out; client 0 is the victim) instead of a fixed scenario, measure its fault-free run under its own schedule and inject the fault / apply the clean cause at a generated point of that run. Non-trivial: >=3 application operations of the victim pending when the client stops. Distinct = scenario + cause + point + schedule.",
     assumptions: &[
         "a transport operation = a receive that yielded, a send_start, a flush that completed, on the victim's side of the repository's channel transport; the handshake is not part of the fault domain",
         "'error' fails one operation and leaves the peer unaware until the client drops the transport; 'disconnect' closes the transport under the client at that operation",
@@ -315,10 +315,10 @@ fn decode_generated(class: &str, tape: &[u8]) -> Case15 {
     let rest = t.rest();
     let (sc, sched_seed, det_seed, policy) = generated_scenario(rest);
     let cause = if class == "fault-generated" {
-        if sel % 2 == 0 {
-            Cause::Fault(FaultKind::Error)
-        } else {
-            Cause::Fault(FaultKind::Eof)
+        match sel % 3 {
+            0 => Cause::Fault(FaultKind::Error),
+            1 => Cause::Fault(FaultKind::Eof),
+            _ => Cause::Fault(FaultKind::HalfOpen),
         }
     } else {
         match sel % 5 {
@@ -347,14 +347,22 @@ fn decode(class: &str, tape: &[u8]) -> Case15 {
     let det_seed = t.u16() as u64;
     let (cause, relative) = match class {
         "fault-sweep" => (
-            match sel % 3 {
+            match sel % 4 {
                 0 => Cause::None,
                 1 => Cause::Fault(FaultKind::Error),
-                _ => Cause::Fault(FaultKind::Eof),
+                2 => Cause::Fault(FaultKind::Eof),
+                _ => Cause::Fault(FaultKind::HalfOpen),
             },
             false,
         ),
-        "fault-random" => (if sel % 2 == 0 { Cause::Fault(FaultKind::Error) } else { Cause::Fault(FaultKind::Eof) }, true),
+        "fault-random" => (
+            match sel % 3 {
+                0 => Cause::Fault(FaultKind::Error),
+                1 => Cause::Fault(FaultKind::Eof),
+                _ => Cause::Fault(FaultKind::HalfOpen),
+            },
+            true,
+        ),
         "clean-late-abort" => (Cause::ShutdownRequest, true),
         _ => (
             match sel % 5 {
@@ -745,6 +753,7 @@ fn execute(c: &Case15, cause: Cause, point: u32) -> Result<Done, Outcome> {
     classes.push(match cause {
         Cause::Fault(FaultKind::Error) => "cause:transport-error",
         Cause::Fault(FaultKind::Eof) => "cause:transport-disconnect",
+        Cause::Fault(FaultKind::HalfOpen) => "cause:transport-error-half-open",
         Cause::ShutdownRequest => "cause:shutdown-request",
         Cause::LastHandleDropped => "cause:last-handle-dropped",
         Cause::BrokerShutdown => "cause:broker-shutdown",
@@ -779,6 +788,7 @@ fn cause_name(c: Cause) -> &'static str {
         Cause::None => "none",
         Cause::Fault(FaultKind::Error) => "transport-error",
         Cause::Fault(FaultKind::Eof) => "transport-disconnect",
+        Cause::Fault(FaultKind::HalfOpen) => "transport-error-half-open",
         Cause::ShutdownRequest => "shutdown-request",
         Cause::LastHandleDropped => "last-handle-dropped",
         Cause::BrokerShutdown => "broker-shutdown",
@@ -1165,6 +1175,7 @@ fn extra(ctx: &mut Ctx) {
             for k in 0..m.t_ops as u32 {
                 ctx.eval_case("fault-sweep", &sweep_tape(sc, 1, k, *ss, *pol, *det));
                 ctx.eval_case("fault-sweep", &sweep_tape(sc, 2, k, *ss, *pol, *det));
+                ctx.eval_case("fault-sweep", &sweep_tape(sc, 3, k, *ss, *pol, *det));
             }
         }
     }
@@ -1187,7 +1198,7 @@ fn extra_coverage(_t: Tier) -> serde_json::Value {
     }
     json!({
         "exhaustive": true,
-        "exhaustive_over": "transport operation index k in 0..T of the victim, with error and with disconnect, for every scenario under each sweep schedule (class fault-sweep)",
+        "exhaustive_over": "transport operation index k in 0..T of the victim, with error, with disconnect and with half-open error, for every scenario under each sweep schedule (class fault-sweep)",
         "scenarios": per,
     })
 }
